@@ -20,6 +20,8 @@ def label(op):
         return "c"
     if o == "choose":
         return "k%d" % op.get("i", 0)
+    if "aslab" in op:
+        return op["aslab"]
     key = {k: v for k, v in op.items() if k not in ("op", "on", "cls", "macro", "note", "lenient", "expectkey")}
     return "%s:%s" % (o, json.dumps(key, sort_keys=True))
 
@@ -31,7 +33,7 @@ def default_cls(op):
     return {"cont": "cont", "choose": "choose", "new": "new", "drop": "drop", "save": "save", "load": "load",
             "reset": "reset", "switch_flow": "switch", "switch_default": "switchdef", "remove_flow": "remove",
             "cont_async": "slice", "observe": "reg", "bind": "reg", "unbind": "reg", "set_handler": "reg",
-            "set_fallbacks": "reg", "remove_observer": "reg"}.get(o, "valid")
+            "set_fallbacks": "reg", "remove_observer": "reg", "set_var": "setvar"}.get(o, "valid")
 
 
 def canon_cb(cbs, keep_lines=False):
@@ -60,6 +62,7 @@ class Batch:
         self.events = []
         self.evmeta = []         # per event: (case key, record)
         self.cases = {}          # case key -> scenario info for replay
+        self.rawmsgs = {}        # node -> (errors, warnings) of the base observation
         self.ncases = 0
 
     # ---------------------------------------------------------------- observation projection
@@ -90,7 +93,12 @@ class Batch:
                 vi = {n: c for n, c in (obs.get("visits") or {}).items() if n.split(".")[0] in names["knots"]}
                 pf[f] = self.intern([vs, vi])
         o["pf"] = pf
+        o["cnt"] = {k[4:]: v.get("v", 0) for k, v in ((obs or {}).get("vars") or {}).items() if k.startswith("cnt_")}
+        o["newmsgs"] = []
         return o
+
+    def msgs_of(self, obs):
+        return [("E", m) for m in (obs or {}).get("errors", [])], [("W", m) for m in (obs or {}).get("warnings", [])]
 
     def cbids(self, rec):
         return [self.intern(c) for c in canon_cb(rec.get("cb"))]
@@ -100,9 +108,14 @@ class Batch:
         return self.intern(v) if v is not None else 0
 
     # ---------------------------------------------------------------- reference system
-    def new_node(self, rec, cfg):
-        self.nodes.append(dict(kids={}, o=self.proj(rec, cfg), res=rec.get("res", "ok"), cb=self.cbids(rec),
-                               val=self.valid(rec)))
+    def new_node(self, rec, cfg, parent=None):
+        o = self.proj(rec, cfg)
+        er, wa = self.msgs_of(rec.get("obs"))
+        per, pwa = self.rawmsgs.get(parent, ([], [])) if parent else ([], [])
+        new = (er[len(per):] if er[:len(per)] == per else er) + (wa[len(pwa):] if wa[:len(pwa)] == pwa else wa)
+        o["newmsgs"] = [self.intern(list(m)) for m in new]
+        self.nodes.append(dict(kids={}, o=o, res=rec.get("res", "ok"), cb=self.cbids(rec), val=self.valid(rec)))
+        self.rawmsgs[len(self.nodes)] = (er, wa)
         return len(self.nodes)
 
     def add_base(self, recs, cfg, start=None):
@@ -132,10 +145,12 @@ class Batch:
             if lab in kids:
                 child = kids[lab]
                 n = self.nodes[child - 1]
-                if n["o"] != self.proj(r, cfg) or n["res"] != r.get("res"):
+                po = self.proj(r, cfg)
+                po["newmsgs"] = n["o"]["newmsgs"]
+                if n["o"] != po or n["res"] != r.get("res"):
                     raise Inconsistent(r)
             else:
-                child = self.new_node(r, cfg)
+                child = self.new_node(r, cfg, parent=node)
                 kids[lab] = child
             node = child
             trail.append(node)
@@ -145,11 +160,14 @@ class Batch:
         self.roots = {}
 
     # ---------------------------------------------------------------- probed runs
-    def start_case(self, key, info, cmp=None, cmpall=None, pf=False, cmpcb=True, cmpval=True, cmpsave=True):
+    def start_case(self, key, info, cmp=None, cmpall=None, pf=False, cmpcb=True, cmpval=True, cmpsave=True,
+                   cmpres=True, chk11=False, chk12="", chk13=False):
         self.ncases += 1
         self.cases[self.ncases] = dict(key=key, info=info)
+        self.rich = bool(chk11 or chk12 or chk13)
         self.events.append(dict(cls="case", case=self.ncases, cmp=cmp or ALL_COMPS, cmpall=cmpall or ALL_COMPS, pf=pf,
-                                cmpcb=cmpcb, cmpval=cmpval, cmpsave=cmpsave))
+                                cmpcb=cmpcb, cmpval=cmpval, cmpsave=cmpsave, cmpres=cmpres, chk11=chk11, chk12=chk12,
+                                chk13=chk13))
         self.evmeta.append((self.ncases, None))
         return self.ncases
 
@@ -165,8 +183,23 @@ class Batch:
                      o=self.proj(r, cfg), cb=self.cbids(r), val=self.valid(r), k=op.get("i", 0) if op.get("op") == "choose" else 0,
                      slot=str(op.get("slot", "")), f=str(op.get("name", "")) if op.get("op") in ("switch_flow", "remove_flow") else "",
                      key=self.intern(["evalkey", op.get("name"), op.get("args")]) if op.get("op") == "eval_fn" else 0,
-                     fin=bool(r.get("finished", False)), expect=0, lenient=bool(op.get("lenient", False)),
+                     fin=bool(r.get("finished", not (r.get("obs") or {}).get("async", False))), expect=0, lenient=bool(op.get("lenient", False)),
                      root=root, froot=froot or {}, hasobs=has)
+            e["wo"] = op.get("obs", 0) if op.get("op") in ("observe", "remove_observer") else 0
+            e["wv"] = str(op.get("var", "")) if op.get("op") in ("observe", "remove_observer") else (
+                str(op.get("name", "")) if op.get("op") == "set_var" else "")
+            e["cbs"], e["vm"], e["ext"], e["msgs"] = [], {}, {}, []
+            if self.rich:
+                for c in r.get("cb") or []:
+                    if c.get("k") == "obs":
+                        e["cbs"].append(dict(k="obs", o=c["o"], var=c["var"], val=self.intern(c["val"])))
+                    elif c.get("k") == "ext":
+                        e["cbs"].append(dict(k="ext", o=0, var=c["f"], val=0))
+                        e["ext"][c["f"]] = e["ext"].get(c["f"], 0) + 1
+                    else:
+                        e["cbs"].append(dict(k="msg", o=0, var="", val=0))
+                        e["msgs"].append(self.intern([c.get("type"), c.get("text")]))
+                e["vm"] = {k: self.intern(v) for k, v in ((r.get("obs") or {}).get("vars") or {}).items()}
             e["ja"] = e["jb"] = 0
             if cls == "jumpreset" and r.get("obs") and prev_obs.get(e["i"]):
                 tgt = op.get("path", "").split(".")[0]
